@@ -34,6 +34,7 @@ def generate(seed, tier="quick"):
         ops.append(op)
     prog = {"format": 1, "property": PROPERTY, "seed": seed, "config": cfg, "ops": ops, "schedule": None, "faults": []}
     sampling.add_concurrent(rnd, prog)
+    sampling.add_failed_op(rnd, prog)
     return prog
 
 
@@ -49,6 +50,10 @@ def judge_iterative(dep, rec, L, prop, probes):
     def probe(k, n=1):
         probes[k] = probes.get(k, 0) + n
 
+    if sampling.failed_as_injected(rec):
+        probe("failed_op_in_history(injected pool fault, raised)")
+        info["legit_raise"] = True
+        return v, info
     n_req = int(kw["n_requested_samples"])
     max_prior = kw.get("max_prior_samples")
     budget = N if max_prior is None else min(int(max_prior), N)
